@@ -152,7 +152,8 @@ def _case(draw):
     shape, kinds = draw(_shape())
     dtype = 'f' if chain else draw(st.sampled_from('fffffffi'))
     case = {'shape': shape, 'kinds': kinds, 'dtype': dtype,
-            'form': draw(st.sampled_from(['arr', 'np', 'py'])) if not shape else 'arr'}
+            'form': draw(st.sampled_from(['arr', 'np', 'py'])) if not shape else 'arr',
+            'layout': draw(st.sampled_from(['C', 'C', 'F']))}
     if chain:
         case['init'] = draw(st.lists(_dsdesc('f'), min_size=1, max_size=3))
         case['ops'] = draw(st.lists(_op(True), min_size=2, max_size=10))
@@ -180,6 +181,8 @@ def _build(case, desc):
     dtype = np.int64 if case['dtype'] == 'i' else np.float64
     value = _tile(desc['vals'], shape, dtype)
     error = _tile(desc['errs'], shape, dtype)
+    if case.get('layout') == 'F' and len(shape) >= 2:       # Fortran memory order
+        value, error = np.asfortranarray(value), np.asfortranarray(error)
     if desc['mask'] is not None:
         mask = _tile(desc['mask'], shape, bool)
         value = np.ma.masked_array(value, mask=mask.copy())
